@@ -156,6 +156,7 @@ var controlStmts = []string{
 	"option (c20r) = -2147483648;",
 	"option (c20s) = \"a\" 'b' \"\\x63\";",
 	"option (c20any) = { [type.googleapis.com/%PKG%.OptMsg] { i: 7 s: \"x\" } };",
+	"option (c20anyp) = { [type.googleprod.com/%PKG%.OptMsg] { i: 8 } };",
 }
 
 // probeSource returns src with the probe block appended; stmts go into the
@@ -191,7 +192,7 @@ func probeSource(src, syntax, pkg string, withEnumExt bool, stmts []string) stri
 	if withEnumExt {
 		fmt.Fprintf(&sb, "  %s.%s.OptEnum c20e = 70009;\n", opt, pkg)
 	}
-	fmt.Fprintf(&sb, "  %s.google.protobuf.Any c20any = 70011;\n  %s.google.protobuf.Any c20anyx = 70012;\n", opt, opt)
+	fmt.Fprintf(&sb, "  %s.google.protobuf.Any c20any = 70011;\n  %s.google.protobuf.Any c20anyx = 70012;\n  %s.google.protobuf.Any c20anyp = 70013;\n", opt, opt, opt)
 	fmt.Fprintf(&sb, "}\n")
 	fmt.Fprintf(&sb, "extend google.protobuf.FieldOptions {\n  %sint32 c20tf = 70010 [targets = TARGET_TYPE_FIELD, targets = TARGET_TYPE_ENUM];\n}\n", opt)
 	fmt.Fprintf(&sb, "message C20T {\n  %sint32 v = 1 [targets = TARGET_TYPE_ENUM];\n  %sint32 w = 2;\n}\n", opt, opt)
